@@ -4,7 +4,7 @@ package bech32
 
 import "errors"
 
-// VerifC04Decode: Decode on every ASCII string of length n whose last '1' is at index sep
+// VerifC04Decode: Decode on every byte string of length n whose last '1' is at index sep
 // (sep = -1: no '1'): no panic, accepted iff BIP-173 valid with whole-byte data and zero
 // padding, outputs, error offsets, canonicity.
 //
@@ -22,8 +22,11 @@ func VerifC04Decode(n, sep int) {
 		return
 	}
 	s := verifString("s", n)
+	ascii := true
 	for i := 0; i < n; i++ {
-		verifAssume(s[i] < 0x80)
+		if s[i] >= 0x80 {
+			ascii = false // any byte value is allowed; non-ASCII strings are never valid
+		}
 		if i > sep {
 			verifAssume(s[i] != '1')
 		}
@@ -77,7 +80,7 @@ func VerifC04Decode(n, sep int) {
 		lenOK := rem != 1 && rem != 3 && rem != 6
 		var padOK bool
 		want, padOK = verifRegroup5to8(payload)
-		ok = hrpOK && !(hasUpper && hasLower) && charsOK && chkOK && lenOK && padOK
+		ok = ascii && hrpOK && !(hasUpper && hasLower) && charsOK && chkOK && lenOK && padOK
 	}
 
 	var hrp string
